@@ -22,7 +22,13 @@ unset, calls with every declared arity, final state, Python MRO, cross-load of
 the saved document) -- and `keyword-ops` -- operations named after soft
 keywords (plain method names), hard keywords (trailing underscore) and plain
 names, overridden in subclasses; results, exception classes and notifications
-are compared rendering against rendering (never find-vs-getattr)."""
+are compared rendering against rendering (never find-vs-getattr);
+`population` -- several objects (roots, contained, in two resources, in none):
+allInstances with / without resources= on the class handle and on its EClass,
+eResource, eContents, eAllContents, eRoot, eContainer, answered as object
+indices; `rerender` -- the description rendered again (same or revised) INTO
+THE SAME module / rebuilt: documents saved before and after must load through
+the module / package into the CURRENT classes on every rendering."""
 import copy
 import os
 import tempfile
@@ -156,7 +162,7 @@ def new_sdstats():
             'classes_per_case': {}, 'features_per_class': {}, 'cases_meeting_theorem_premises': 0,
             'with_opposites': 0, 'with_defaults': 0, 'with_diamond': 0, 'with_abstract': 0, 'class_flags': {},
             'body_cases': 0, 'body_python_raised': 0, 'body_entries': {}, 'naming_cases': 0, 'model_calls': 0,
-            'behaviour_cases': 0, 'behaviour_calls': 0, 'behaviour_outcomes': {}}
+            'behaviour_cases': 0, 'behaviour_calls': 0, 'behaviour_outcomes': {}, 'rerender_cases': 0}
 
 
 def eclasses_of(world, mm):
@@ -267,12 +273,12 @@ def staticdecl_generated(ctx, out, model, st, n):
 BEHAVE_RENDERS = ['dynamic', 'static-meta', 'static-decorator']
 
 
-def behave_traces(D, history):
+def behave_traces(D, history, driver=None):
     """{rendering: trace | 'construction raised X'}"""
     tr = {}
     for render in BEHAVE_RENDERS:
         try:
-            b = sd.Behaviour(D, render)
+            b = (driver or sd.Behaviour)(D, render)
         except Exception as e:  # noqa
             tr[render] = 'construction raised ' + type(e).__name__
             continue
@@ -298,8 +304,8 @@ def behave_first_difference(tr):
     return best
 
 
-def behave_case(ctx, out, st, scenario, D, history):
-    tr = behave_traces(D, history)
+def behave_case(ctx, out, st, scenario, D, history, driver=None):
+    tr = behave_traces(D, history, driver)
     st['behaviour_cases'] += 1
     if not isinstance(tr['dynamic'], str):
         st['behaviour_calls'] += 3 * len(history)
@@ -322,14 +328,21 @@ def behave_case(ctx, out, st, scenario, D, history):
         return
     render, j, a, b = d
     cut = history
-    if j is not None:
+    if j is not None and driver is None:
         # the steps on the same instance up to the differing one are enough when they still differ
         small = [h for h in history[:j + 1] if h[1] == history[j][1]]
         d2 = behave_first_difference(behave_traces(D, small))
         cut = small if d2 is not None and d2[1] == len(small) - 1 else history[:j + 1]
+    elif j is not None:
+        # a population: the objects and links made so far, then the differing query alone
+        small = [h for h in history[:j] if h[0] in ('make', 'contain', 'uncontain', 'rappend', 'rremove')] + [history[j]]
+        d2 = behave_first_difference(behave_traces(D, small, driver))
+        cut = small if d2 is not None and d2[1] == len(small) - 1 else history[:j + 1]
     step = history[j] if j is not None else ['construct']
+    who = '-' if j is None else (D['classes'][step[1]]['name'] if driver is None or step[0] in ('make', 'all', 'eall')
+                                 else f'object {step[1]}')
     out.fail({'property': PID, 'clause': 'behaviour', 'scenario': scenario, 'culprit': step[0], 'render': render},
-             f'{scenario}: step {step} on an instance of {D["classes"][step[1]]["name"] if j is not None else "-"}: '
+             f'{scenario}: step {step} on {who}: '
              f'dynamic {str(a)[:160]} vs {render} {str(b)[:160]}',
              {'scenario': scenario, 'seed': ctx.seed, 'tier': ctx.tier, 'behave': D, 'history': cut})
 
@@ -338,18 +351,57 @@ def clash_scenarios(ctx, out, model=None, st=None):
     """multiple inheritance, branches of different depth declaring members of the same name"""
     st = st if st is not None else new_sdstats()
     rng = common.rng_for(ctx.seed, 'C13:clash')
-    for _ in range(45 if ctx.tier != 'thorough' else 600):
+    for _ in range(45 if ctx.tier != 'thorough' else 350):
         D = sd.gen_clash_descr(rng)
         if model is not None:
             sd_check_descr(out, model, st, D, 'clash')
         behave_case(ctx, out, st, 'clash', D, sd.behave_history(D, rng))
 
 
+def population_scenarios(ctx, out, model=None, st=None):
+    """several objects (roots, contained, in two resources, in none): allInstances with and without resources= on
+    the class handle and on its EClass, eResource, eContents, eAllContents, eRoot, eContainer"""
+    st = st if st is not None else new_sdstats()
+    rng = common.rng_for(ctx.seed, 'C13:population')
+    for _ in range(25 if ctx.tier != 'thorough' else 120):
+        D = sd.gen_population_descr(rng)
+        behave_case(ctx, out, st, 'population', D, sd.population_history(D, rng), sd.Population)
+
+
+def rerender_difference(D1, D2):
+    tr = {r: sd.rerender_trace(D1, D2, r) for r in BEHAVE_RENDERS}
+    for render in BEHAVE_RENDERS[1:]:
+        for a, b in zip(tr['dynamic'], tr[render]):
+            if a != b:
+                return render, a, b
+        if len(tr['dynamic']) != len(tr[render]):
+            return render, f'{len(tr["dynamic"])} observations', f'{len(tr[render])} observations'
+    return None
+
+
+def rerender_scenarios(ctx, out, model=None, st=None):
+    """a description rendered, then rendered again (the same or revised) INTO THE SAME module / built again:
+    documents saved before and after load through the module / package into the CURRENT classes"""
+    st = st if st is not None else new_sdstats()
+    rng = common.rng_for(ctx.seed, 'C13:rerender')
+    for _ in range(12 if ctx.tier != 'thorough' else 100):
+        D1 = sd.gen_population_descr(rng)
+        D2 = sd.revise_descr(D1, rng) if rng.random() < 0.6 else D1
+        st['rerender_cases'] += 1
+        d = rerender_difference(D1, D2)
+        if d is not None:
+            render, a, b = d
+            out.fail({'property': PID, 'clause': 'behaviour', 'scenario': 'rerender', 'culprit': 'load-after-redefinition',
+                      'render': render},
+                     f'rerender: dynamic {str(a)[:160]} vs {render} {str(b)[:160]}',
+                     {'scenario': 'rerender', 'seed': ctx.seed, 'tier': ctx.tier, 'behave': D1, 'revised': D2, 'history': []})
+
+
 def keyword_scenarios(ctx, out, model=None, st=None):
     """operations named after soft keywords, hard keywords and plain names, called on both renderings"""
     st = st if st is not None else new_sdstats()
     rng = common.rng_for(ctx.seed, 'C13:keyword-ops')
-    for _ in range(25 if ctx.tier != 'thorough' else 300):
+    for _ in range(25 if ctx.tier != 'thorough' else 120):
         D = sd.gen_keyword_descr(rng)
         behave_case(ctx, out, st, 'keyword-ops', D, sd.behave_history(D, rng, xload=False))
 
@@ -412,6 +464,8 @@ def run(ctx, out):
     model = common.Model()
     stats = {'cases': 0, 'calls': 0, 'cross_loads': 0, 'ops': {}}
     sdstats = new_sdstats()
+    # first: allInstances walks EVERY live EObject of the process (EObject._instances), cheap only while few exist
+    population_scenarios(ctx, out, model, sdstats)
     samples = []
     distinct = set()
     from harness import kimpl
@@ -503,6 +557,7 @@ def run(ctx, out):
     staticdecl_naming(out, model, sdstats)
     clash_scenarios(ctx, out, model, sdstats)
     keyword_scenarios(ctx, out, model, sdstats)
+    rerender_scenarios(ctx, out, model, sdstats)
     staticdecl_bodies(ctx, out, model, sdstats, 150 if not thorough else 3000)
     model.close()
     out.coverage.update({'staticdecl_' + k: v for k, v in sdstats.items()})
@@ -521,8 +576,12 @@ def run(ctx, out):
 
 def replay(ctx, rep):
     case = rep['case']
+    if case.get('scenario') == 'rerender':
+        d = rerender_difference(case['behave'], case['revised'])
+        print('REPRODUCED ' + str(d)[:400] if d is not None else 'not reproduced')
+        return 1 if d is not None else 0
     if 'behave' in case:
-        tr = behave_traces(case['behave'], case['history'])
+        tr = behave_traces(case['behave'], case['history'], sd.Population if case.get('scenario') == 'population' else None)
         d = behave_first_difference(tr)
         for render in BEHAVE_RENDERS:
             t = tr[render]
